@@ -26,6 +26,12 @@ static const int kMoved = -7;  // value left in a moved-from instrumented elemen
 
 // ---------------------------------------------------------------------------------------------
 // Global ledger of element objects, allocator blocks, event counters and the throw countdown.
+// set by the drivers whose transcripts are line oriented (vecdrv): the injected event is printed before it is thrown
+inline bool &announceInjection() {
+  static bool on = false;
+  return on;
+}
+
 struct Globals {
   // element ledger: status by id (ids are sequential); 1 = alive, 2 = destroyed
   std::vector<char> status;
@@ -57,14 +63,13 @@ struct Globals {
     --live;
   }
   // Called at each throwing-capable event
-  bool announceInjection = false;  // set by the drivers whose transcripts are line oriented (vecdrv)
   std::string lastInjected;  // which throwing-capable event the fault injection made throw in the current step
   void tick(const char *what) {
     ++throwingEvents;
     if (countdown == 0) {
       countdown = -1;
       lastInjected = what;
-      if (announceInjection) {
+      if (announceInjection()) {
         std::printf("INJ %s\n", what);  // survives a crash of the operation (stdout is flushed)
         std::fflush(stdout);
       }
@@ -77,7 +82,7 @@ struct Globals {
     if (countdown == 0) {
       countdown = -1;
       lastInjected = "allocate";
-      if (announceInjection) {
+      if (announceInjection()) {
         std::printf("INJ allocate\n");
         std::fflush(stdout);
       }
